@@ -4817,10 +4817,16 @@ func (l *Lowerer) evalConstantBinaryExpr(e *parser.BinaryExpr) (ir.ScalarKind, i
 	if err != nil {
 		return 0, 0, fmt.Errorf("right operand: %w", err)
 	}
-	// Result kind: unsigned only if both operands are unsigned
+	// Result kind: unsigned if either operand is unsigned. WGSL never mixes
+	// i32 and u32 in one operation, so a signed-kinded operand next to a u32
+	// is an abstract integer, which converts to u32.
 	resultKind := ir.ScalarSint
-	if leftKind == ir.ScalarUint && rightKind == ir.ScalarUint {
+	if leftKind == ir.ScalarUint || rightKind == ir.ScalarUint {
 		resultKind = ir.ScalarUint
+	}
+	if e.Op == parser.TokenLessLess || e.Op == parser.TokenGreaterGreater {
+		// a shift has the type of its left operand; the amount is always u32
+		resultKind = leftKind
 	}
 	switch e.Op {
 	case parser.TokenPlus:
